@@ -776,6 +776,36 @@ fn main() {
         }
         verif_clock::set(None);
     }
+    // ---------------- implementation-only stream: one very large record ----------------
+    // a ~17 MiB AbortIntent record (long reason), then a transaction that becomes Prepared; restart
+    {
+        let dir = args.out.join("scratch");
+        fs::create_dir_all(&dir).unwrap();
+        let wal = dir.join("large.wal");
+        let _ = fs::remove_file(&wal);
+        verif_clock::set(Some(3_000_000));
+        let mut r2 = rng.fork();
+        let reason: String = (0..17 * 1024 * 1024 / 8).flat_map(|_| r2.next().to_le_bytes()).map(|x| (b'a' + x % 26) as char).collect();
+        if let Ok(mut w) = TxWal::open(&wal) {
+            let a1 = w.append(&TxWalEntry::AbortIntent { tx_id: 424_242, reason, shards: vec![0] }).is_ok();
+            let c = DistributedTxCoordinator::new(ConsensusManager::default_config(), DistributedTxConfig::default()).with_wal(w);
+            if let Ok(tx0) = c.begin(&"coord".to_string(), &[0]) {
+                let prepared = matches!(c.record_vote(tx0.tx_id, 0, yes(0xABD)), Ok(Some(TxPhase::Prepared)));
+                drop(c);
+                cx.dist.hit("large_record.probe");
+                let back = open(&wal).ok().and_then(|c2| c2.recover_from_wal().ok().map(|_| c2.get(tx0.tx_id).map(|t| phase_code(t.phase))));
+                if a1 && prepared && back != Some(Some(1)) {
+                    hits.push(
+                        "large-record",
+                        &format!("a 17 MiB AbortIntent record, then begin [0]; vote Yes -> Prepared; restart + recover_from_wal: the prepared transaction is {}", match back { None => "unknown: recovery FAILED".to_string(), Some(None) => "gone".to_string(), Some(Some(p)) => format!("in phase {p}") }),
+                        json!({"steps": "TxWal.append(AbortIntent with a 17 MiB reason); begin [0]; vote Yes; restart; recover_from_wal"}),
+                    );
+                }
+            }
+        }
+        verif_clock::set(None);
+        let _ = fs::remove_file(&wal);
+    }
     let _ = fs::remove_dir_all(args.out.join("scratch"));
     write_meta(
         &args.out,
